@@ -172,8 +172,16 @@ func zzC14(mode int) {
 	}
 	info.Expiration = vTimeSec(expSec, expNsec)
 	noExp := expSec == 0 && expNsec == 0
-	errInvalid := fmt.Errorf("bad signature: %w", ErrInvalidToken)
-	errOAuth := fmt.Errorf("proto: %w", ErrOAuth)
+	// the sentinel may sit anywhere in the error the verifier returns: bare, wrapped once, wrapped beside its cause
+	// (two %w verbs) or joined with it (errors.Join — what JWT libraries return): errors.Is finds it in every shape
+	cause := errors.New("token is expired by 3m")
+	errInvalid := func() error { // (drawn only on the paths that return it)
+		return []error{fmt.Errorf("bad signature: %w", ErrInvalidToken), ErrInvalidToken, fmt.Errorf("%w: %w", ErrInvalidToken, cause),
+			errors.Join(cause, ErrInvalidToken), fmt.Errorf("verify: %w", errors.Join(ErrInvalidToken, cause))}[vChoice("errorShape", 5)]
+	}
+	errOAuth := func() error {
+		return []error{fmt.Errorf("proto: %w", ErrOAuth), errors.Join(ErrOAuth, cause)}[vChoice("oauthErrorShape", 2)]
+	}
 	errOther := errors.New("database down")
 	outcome := 0
 	if full {
@@ -200,9 +208,9 @@ func zzC14(mode int) {
 		case 1:
 			return nil, nil
 		case 2:
-			return infoWithErr(), errInvalid
+			return infoWithErr(), errInvalid()
 		case 3:
-			return infoWithErr(), errOAuth
+			return infoWithErr(), errOAuth()
 		}
 		return infoWithErr(), errOther
 	}
